@@ -21,12 +21,17 @@
      c03_date_time_is_first_unit_ntp  EXT-X-PROGRAM-DATE-TIME (ps_dt), where printed, is the wall clock
         written with the unit that became the segment's first sample;
      c03_span_nonvacuous  a concrete Low-Latency history with two complete segments meets the hypotheses.
-   Checked by the correspondence run + oracle, not proved: the same two facts for the MPEG-TS variant, and
-   that the non-leading streams copy the leading stream's values. *)
+   ... and for EVERY stream of the muxer (leading or not), same variants and hypotheses:
+     c03_extinf_is_leading_span_all_streams, c03_date_time_is_leading_first_unit_all_streams  the i-th
+        listed entry of any stream's playlist, when not a gap, has the id of the leading stream's i-th listed
+        segment, its EXTINF is the media time that segment spans on the leading track and its
+        EXT-X-PROGRAM-DATE-TIME, where printed, the wall clock of that segment's first unit (from the
+        agreement of all streams on ids, gap flags, start / end times and wall clocks, MuxAgree.v).
+   Checked by the correspondence run + oracle, not proved: the same two facts for the MPEG-TS variant. *)
 From Coq Require Import List ZArith Bool.
 From GoHls Require Import Model.Mux Proofs.MuxStream Proofs.MuxLift Proofs.MuxWindow Proofs.MuxHistory
   Proofs.MuxPlaylist Proofs.MuxTimes Proofs.MuxTargetMono
-  Proofs.MuxLog Proofs.MuxLogStep Proofs.MuxGroups Proofs.MuxChain Proofs.MuxSpan Proofs.MuxSpanHist.
+  Proofs.MuxLog Proofs.MuxLogStep Proofs.MuxGroups Proofs.MuxChain Proofs.MuxSpan Proofs.MuxSpanHist Proofs.MuxSpanAll.
 Import ListNotations.
 Local Open Scope Z_scope.
 
@@ -129,6 +134,40 @@ Theorem c03_date_time_is_first_unit_ntp : forall c m0 ops,
       /\ forall ntp, ps_dt e = Some ntp -> ntp = s_ntp x.
 Proof. exact date_time_is_first_unit_ntp. Qed.
 Print Assumptions c03_date_time_is_first_unit_ntp.
+
+(* ---- the same for every stream of the muxer: non-leading streams list the leading stream's spans and wall clocks ---- *)
+Theorem c03_extinf_is_leading_span_all_streams : forall c m0 ops,
+  start c = Ok m0 -> c_variant c <> MPEGTS -> all_ok m0 ops ->
+  let m := mux_run m0 ops in
+  let li := leading_index m in
+  forall si s t pl i e,
+    nth_error (m_streams m) si = Some s -> nth_error (m_tracks m) li = Some t ->
+    gen_media_playlist m si = Some pl ->
+    nth_error (pl_segs pl) i = Some e -> ps_gap e = false ->
+    exists sl gl x rest y after,
+      nth_error (m_streams m) li = Some sl /\ nth_error (st_segments sl) i = Some gl
+      /\ sg_gap gl = false /\ ps_id e = sg_id gl
+      /\ seg_samples gl = x :: rest
+      /\ slog m li ++ pend_list m li
+         = flat_map seg_samples (real_segs (st_evicted sl ++ firstn i (st_segments sl))) ++ (x :: rest) ++ y :: after
+      /\ ps_dur e = timestampToDuration (s_dts y) (t_rate (tk_cfg t)) - timestampToDuration (s_dts x) (t_rate (tk_cfg t)).
+Proof. exact extinf_is_leading_span_all_streams. Qed.
+Print Assumptions c03_extinf_is_leading_span_all_streams.
+
+Theorem c03_date_time_is_leading_first_unit_all_streams : forall c m0 ops,
+  start c = Ok m0 -> c_variant c <> MPEGTS -> all_ok m0 ops ->
+  let m := mux_run m0 ops in
+  let li := leading_index m in
+  forall si s pl i e,
+    nth_error (m_streams m) si = Some s -> gen_media_playlist m si = Some pl ->
+    nth_error (pl_segs pl) i = Some e -> ps_gap e = false ->
+    exists sl gl x rest,
+      nth_error (m_streams m) li = Some sl /\ nth_error (st_segments sl) i = Some gl
+      /\ sg_gap gl = false /\ ps_id e = sg_id gl
+      /\ seg_samples gl = x :: rest
+      /\ forall ntp, ps_dt e = Some ntp -> ntp = s_ntp x.
+Proof. exact date_time_is_leading_first_unit_all_streams. Qed.
+Print Assumptions c03_date_time_is_leading_first_unit_all_streams.
 
 (* the hypotheses of the three theorems above are met by a Low-Latency history with two complete segments
    (segments 7 and 8, 1 s each: first samples at 10 s and 11 s, the open segment's first sample at 12 s) *)
